@@ -188,3 +188,35 @@ reg('C12', module='c12', level='exploration',
                           'types_compared': 50000,
                           'atom_skeleton_checks': 30000,
                           'dependence_checks': 10000}})
+
+reg('C13', module='c13', level='exploration',
+    technique=('runtime monitoring: get_logic / get_theory / script logic '
+               'observed against an independent feature extraction; '
+               'exhaustive evaluation of <=, combine, get_closer_logic, '
+               'most_generic_logic and the factory selection over '
+               'pysmt.logics.LOGICS'),
+    rule=('detection: hand-shaped feature formulas + random formulas; '
+          'ordering: all pairs and triples of the named logics and of their '
+          'theories (exhaustive); selection: every target logic x every '
+          'singleton, pair, solver-declared list and 300-2000 random '
+          'subsets; distinct = formula key / supported list'),
+    level_text=('each feature used by the formula (sorts of all symbols incl. '
+                'bound ones, operator families, quantifiers, constant arrays, '
+                'non-linearity) must be enabled by the detected theory, '
+                'logic and script logic; order axioms and selection '
+                'post-conditions are evaluated on the complete finite space '
+                'of named logics.'),
+    level_note=('feature definitions in vf/c13.features are the trusted '
+                'base; solver LOGICS lists are mirrored from the class '
+                'attributes because native solver modules cannot be '
+                'imported'),
+    exhaustive={'quick': False, 'thorough': False},
+    assumptions=['custom_type / arrays_const are not demanded of SMT-LIB 2 '
+                 'script logics (no such flags in the standard logics)'],
+    require={'quick': {'detections_compared': 3000, 'logic_triples': 300000,
+                       'closer_checked': 30000, 'factory_selections': 300,
+                       'theory_combines': 500},
+             'thorough': {'detections_compared': 50000,
+                          'logic_triples': 300000, 'closer_checked': 40000,
+                          'factory_selections': 300,
+                          'theory_combines': 500}})
